@@ -5,3 +5,9 @@ pub assume_specification<T> [std::mem::replace] (dest: &mut T, src: T) -> (r: T)
 pub fn min(a: usize, b: usize) -> (r: usize) ensures r == if a <= b { a } else { b } { if a <= b { a } else { b } }
 pub assume_specification<T> [std::option::Option::<T>::replace] (o: &mut Option<T>, v: T) -> (r: Option<T>) ensures r == *old(o), *final(o) == Some(v);
 pub assume_specification [<usize as core::convert::From<bool>>::from] (b: bool) -> (r: usize) ensures r == (if b { 1usize } else { 0usize });
+pub assume_specification [usize::abs_diff] (a: usize, b: usize) -> (r: usize) ensures r == (if a >= b { a - b } else { b - a });
+pub assume_specification<T, F: FnOnce(T) -> bool> [std::option::Option::<T>::is_some_and] (o: std::option::Option<T>, f: F) -> (r: bool)
+    requires o is Some ==> call_requires(f, (o->Some_0,)),
+    ensures o is None ==> !r, o is Some ==> call_ensures(f, (o->Some_0,), r);
+pub assume_specification<T>[bool::then_some](b: bool, t: T) -> (r: std::option::Option<T>)
+    ensures r == (if b { Some(t) } else { None::<T> });
